@@ -190,9 +190,104 @@ def extract_ls_flush(tree):
     return takes
 
 
+LOCT = "geonet/location_table.py"
+
+
+def extract_age_clamp(tree):
+    """`LocationTable._age_ms(current_time, tst)`: before the subtraction is returned, a top-level `if` whose test is
+    `tst > current_time` (or `current_time < tst`) returns the constant 0"""
+    f = _method(tree, "LocationTable", "_age_ms")
+    params = [a.arg for a in f.args.args if a.arg not in ("self", "cls")]
+    if len(params) != 2:
+        raise Untranslatable("LocationTable._age_ms: expected the two parameters (current_time, tst)")
+    now, tst = params
+    body = [st for st in f.body if not (isinstance(st, ast.Expr) and isinstance(st.value, ast.Constant))]
+    if not body or not isinstance(body[-1], ast.Return) or not isinstance(body[-1].value, ast.BinOp) \
+            or not isinstance(body[-1].value.op, ast.Sub):
+        raise Untranslatable("LocationTable._age_ms: the last statement is not `return <a> - <b>`")
+    sub = body[-1].value
+    if not (isinstance(sub.left, ast.Name) and sub.left.id == now and isinstance(sub.right, ast.Name) and sub.right.id == tst):
+        raise Untranslatable("LocationTable._age_ms: the age is not `current_time - tst`")
+
+    def ahead(test):
+        if isinstance(test, ast.Compare) and len(test.ops) == 1 and isinstance(test.left, ast.Name) \
+                and isinstance(test.comparators[0], ast.Name):
+            l, r, op = test.left.id, test.comparators[0].id, test.ops[0]
+            return (isinstance(op, ast.Gt) and (l, r) == (tst, now)) or (isinstance(op, ast.Lt) and (l, r) == (now, tst))
+        return False
+    for st in body[:-1]:
+        if isinstance(st, ast.If) and ahead(st.test) and len(st.body) == 1 and isinstance(st.body[0], ast.Return) \
+                and _is_const(st.body[0].value, 0) and not st.orelse:
+            return True
+        if any(isinstance(n, ast.Return) for n in ast.walk(st)):
+            break       # something else returns first
+    return False
+
+
+def _stores_into(node, attr):
+    """`self.<attr>[...] = ...` / augmented assignment somewhere in `node`"""
+    for n in ast.walk(node):
+        if isinstance(n, (ast.Assign, ast.AugAssign, ast.AnnAssign)):
+            for t in (n.targets if isinstance(n, ast.Assign) else [n.target]):
+                if isinstance(t, ast.Subscript) and _is_self_attr(t.value, attr):
+                    return True
+        if isinstance(n, ast.Call) and isinstance(n.func, ast.Attribute) and n.func.attr in ("setdefault", "update") \
+                and _is_self_attr(n.func.value, attr):
+            return True
+    return False
+
+
+def _removes(node, attr):
+    for n in ast.walk(node):
+        if isinstance(n, ast.Call) and isinstance(n.func, ast.Attribute) and n.func.attr == "pop" \
+                and _is_self_attr(n.func.value, attr):
+            return True
+        if isinstance(n, ast.Delete) and any(isinstance(t, ast.Subscript) and _is_self_attr(t.value, attr) for t in n.targets):
+            return True
+    return False
+
+
+def extract_ls_giveup(tree):
+    """`Router._ls_retransmit`: the branch taken when itsGnLocationServiceMaxRetrans is reached removes the lookup's
+    entries from `_ls_retransmit_counters` (whose key presence means 'lookup running' in gn_ls_request) and from
+    `_ls_packet_buffers`, stores nothing back into either, and ends the callback"""
+    f = _method(tree, "Router", "_ls_retransmit")
+    ifs = [n for n in ast.walk(f) if isinstance(n, ast.If) and any(
+        isinstance(x, ast.Attribute) and x.attr == "itsGnLocationServiceMaxRetrans" for x in ast.walk(n.test))]
+    if len(ifs) != 1:
+        raise Untranslatable(f"_ls_retransmit: {len(ifs)} tests of itsGnLocationServiceMaxRetrans (expected 1)")
+    br = ast.Module(body=ifs[0].body, type_ignores=[])
+    if not isinstance(ifs[0].body[-1], ast.Return):
+        raise Untranslatable("_ls_retransmit: the give-up branch does not end the callback")
+    return all(_removes(br, a) and not _stores_into(br, a) for a in ("_ls_retransmit_counters", "_ls_packet_buffers"))
+
+
+def extract_ls_buffer_order(tree):
+    """`Router.gn_ls_request`: the packet buffer of a NEW lookup (holding the triggering request) exists before the LS
+    request is handed to the link layer: no top-level statement from the one that calls `_send_ls_request_packet`
+    onwards touches `_ls_packet_buffers` or the `buffered_request` parameter, and a `with self._ls_lock` block before
+    it stores into `_ls_packet_buffers`"""
+    f = _method(tree, "Router", "gn_ls_request")
+    sends = [k for k, st in enumerate(f.body) if _calls(st, "_send_ls_request_packet") or _calls(st, "send")]
+    if not sends:
+        raise Untranslatable("gn_ls_request: no top-level statement sends the LS request")
+    k0 = sends[0]
+    for st in f.body[k0:]:
+        if _mentions(st, "_ls_packet_buffers") or any(isinstance(n, ast.Name) and n.id == "buffered_request" for n in ast.walk(st)):
+            return False
+    for st in f.body[:k0]:
+        if isinstance(st, ast.With) and any(_is_self_attr(i.context_expr, "_ls_lock") for i in st.items) \
+                and _stores_into(st, "_ls_packet_buffers"):
+            return True
+    return False
+
+
 @register(props=["C01"])
 def gen_net_facts():
     tree = ast.parse(src(ROUTER))
+    clamp = extract_age_clamp(ast.parse(src(LOCT)))
+    forgets = extract_ls_giveup(tree)
+    early = extract_ls_buffer_order(tree)
     guard, text = extract_guc_guard(tree)
     outside, under, nst = extract_sn_shape(tree)
     takes = extract_ls_flush(tree)
@@ -207,6 +302,12 @@ def gen_net_facts():
     body += f"def snStatements : Nat := {nst}\n"
     body += "/-- Router.gn_data_indicate_ls_reply: the flushed requests are taken out of _ls_packet_buffers under _ls_lock -/\n"
     body += f"def lsFlushTakesBuffer : Bool := {'true' if takes else 'false'}\n"
+    body += "/-- LocationTable._age_ms: `if tst > current_time: return 0` guards the subtraction -/\n"
+    body += f"def ageClampsFuture : Bool := {'true' if clamp else 'false'}\n"
+    body += "/-- Router._ls_retransmit: the give-up branch removes the lookup from _ls_retransmit_counters and _ls_packet_buffers -/\n"
+    body += f"def lsGiveUpForgetsLookup : Bool := {'true' if forgets else 'false'}\n"
+    body += "/-- Router.gn_ls_request: the packet buffer of a new lookup is stored (under _ls_lock) before the LS request is sent -/\n"
+    body += f"def lsBufferBeforeSend : Bool := {'true' if early else 'false'}\n"
     body += "end Generated.NetFacts\n"
     write_if_changed("NetFacts.lean", body)
 
